@@ -52,7 +52,8 @@ impl Check for C14 {
             // make sure most sessions end on the primary screen
             evs.push(Event::FeedStr { s: (*r.pick(&["\x1b[?1047l", "\x1b[?1049l", "\x1b[?47l"])).to_string(), drain: Drain::All });
         }
-        if let Some(v) = super::draw_volume(r, limit.is_some()) {
+        let (gc, gr) = super::max_geometry(&cfg, &evs);
+        if let Some(v) = super::draw_volume(r, limit.is_some(), gc, gr) {
             // a volume string as one call of its own
             let s = super::volume_string(r, v);
             let at = r.usize_below(evs.len() + 1);
